@@ -460,6 +460,9 @@ func (g *Gen) buildCall(op *OpDesc) (Call, bool) {
 			if rng.Bool(0.25) {
 				n = 13 + rng.Intn(21) // long term lists: 13..33
 			}
+			if rng.Bool(0.02) {
+				n = []int{64, 65, 130, 257, 300}[rng.Intn(5)] // batch-size thresholds of bulk verifiers
+			}
 		}
 		if n > 0 && (len(ip) == 0 || len(w.S) == 0) {
 			return c, false
@@ -877,6 +880,11 @@ func (g *Gen) importMacro() {
 		j := rng.Intn(4)
 		e[(j+1)%4] = e[j]
 		fault = "reject/sem"
+	case 8, 9:
+		if rng.Bool(0.5) {
+			g.oneRelationQuadruple(e)
+			fault = "reject/sem"
+		}
 	case 7:
 		// XY = ZT still holds, the curve equation does not: X and T scaled once more
 		g.push(Call{Op: "Element.Multiply", R: e[0], E: []int{e[0], lam}})
@@ -991,6 +999,61 @@ func (g *Gen) flushPending() {
 		g.push(Call{Op: g.pendingOp, R: r, P: []int{ops[0], ops[1]}, S: []int{rng.Intn(len(w.S)), rng.Intn(len(w.S))}})
 	default:
 		g.push(Call{Op: g.pendingOp, R: r, P: []int{ops[0], ops[1]}})
+	}
+}
+
+// oneRelationQuadruple overwrites the four element slots with a quadruple,
+// computed in the harness, that satisfies exactly one of the two relations
+// (or neither, with Z = 0): the classes a weakened import check would let in.
+func (g *Gen) oneRelationQuadruple(e []int) {
+	rng := g.rng
+	P := alpha.P
+	rnd := func() *big.Int {
+		v := alpha.FromLE(rng.Bytes(32))
+		return v.Mod(v, P)
+	}
+	mulm := func(a, b *big.Int) *big.Int { v := new(big.Int).Mul(a, b); return v.Mod(v, P) }
+	var X, Y, Z, T *big.Int
+	for try := 0; try < 50; try++ {
+		X, Y, Z, T = rnd(), rnd(), rnd(), rnd()
+		switch rng.Intn(6) {
+		case 0: // X = 0, curve equation holds, T != 0: Y^2 = Z^2 + d T^2
+			X = big.NewInt(0)
+			y2 := new(big.Int).Add(mulm(Z, Z), mulm(alpha.D, mulm(T, T)))
+			Y = new(big.Int).ModSqrt(y2.Mod(y2, P), P)
+		case 1: // Y = 0: -X^2 = Z^2 + d T^2
+			Y = big.NewInt(0)
+			x2 := new(big.Int).Add(mulm(Z, Z), mulm(alpha.D, mulm(T, T)))
+			x2.Neg(x2).Mod(x2, P)
+			X = new(big.Int).ModSqrt(x2, P)
+		case 2: // curve equation only: T^2 = (-X^2 + Y^2 - Z^2)/d
+			t2 := new(big.Int).Sub(mulm(Y, Y), mulm(X, X))
+			t2.Sub(t2, mulm(Z, Z)).Mod(t2, P)
+			t2 = mulm(t2, new(big.Int).ModInverse(alpha.D, P))
+			T = new(big.Int).ModSqrt(t2, P)
+		case 3: // X*Y = Z*T only
+			T = mulm(mulm(X, Y), new(big.Int).ModInverse(Z, P))
+		case 4: // Z = 0, one of X, Y zero
+			Z = big.NewInt(0)
+			if rng.Bool(0.5) {
+				X = big.NewInt(0)
+			} else {
+				Y = big.NewInt(0)
+			}
+		default: // Z = 0, T = 0, X^2 = Y^2 (both relations hold projectively, no point)
+			Z, T = big.NewInt(0), big.NewInt(0)
+			Y = new(big.Int).Set(X)
+		}
+		if X != nil && Y != nil && T != nil {
+			break
+		}
+	}
+	if X == nil || Y == nil || T == nil {
+		return
+	}
+	for k, v := range []*big.Int{X, Y, Z, T} {
+		b := alpha.LE32(v)
+		g.push(Call{Op: "Element.SetBytes", R: e[k], HasB: true, B: b[:]})
 	}
 }
 
@@ -1209,6 +1272,28 @@ func (g *Gen) enumAliasMulti(op *OpDesc) {
 	ip := g.initPoints()
 	if len(ip) == 0 || len(w.S) == 0 {
 		return
+	}
+	// long term lists with the receiver in the tail (and at the very end)
+	for _, n := range []int{17, 40, 130, 260} {
+		c := Call{Op: op.Name}
+		for i := 0; i < n; i++ {
+			c.P = append(c.P, ip[rng.Intn(len(ip))])
+			c.S = append(c.S, rng.Intn(len(w.S)))
+		}
+		j := n - 1 - rng.Intn(3)
+		// the receiver's slot appears exactly once, at index j
+		recv := ip[rng.Intn(len(ip))]
+		for i := range c.P {
+			if c.P[i] == recv && len(ip) > 1 {
+				for c.P[i] == recv {
+					c.P[i] = ip[rng.Intn(len(ip))]
+				}
+			}
+		}
+		c.P[j] = recv
+		c.R = recv
+		c.Fault = fmt.Sprintf("alias/multi/recv=points[%d]/n=%d", j, n)
+		g.push(c)
 	}
 	for n := 1; n <= 4; n++ {
 		// receiver in points at each index
